@@ -632,6 +632,11 @@ def build_unit(unit_name, crate, features):
     for i, ln in enumerate(text.split('\n')):
         u.lines.append(ln)
         u.origin.append(('gen', 'expansion of %s' % crate))
+    # comparison impls written by #[derive(PartialOrd, Ord)] (::core::cmp paths in the expansion): structural order, i.e. by
+    # declaration index with every unknown value after all known ones - never the order of the string forms
+    structural = set(re.findall(r'impl\s+::core::cmp::(?:Ord|PartialOrd)\s+for\s+([\w:]+)\s*\{', src))
+    for info in infos:
+        info['structural_ordering'] = info['enum'] in structural
     u.counts = counts
     u.enum_infos = infos
     u.skipped = skipped
